@@ -10,6 +10,7 @@ mod eqord;
 mod sat;
 mod desc;
 mod psbt;
+mod policy;
 mod tables;
 mod tap;
 mod validate;
@@ -44,6 +45,7 @@ fn main() {
         "ext" => ext::run(&args[2..]),
         "eqord" => eqord::run(&args[2..]),
         "translate" => translate::run(&args[2..]),
+        "policy" => policy::run(&args[2..]),
         other => {
             eprintln!("unknown engine {}", other);
             std::process::exit(2);
